@@ -16,7 +16,7 @@ func init() {
 		rule{name: "S-stackfx", run: ruleSStackFx},
 		rule{name: "T-truth", run: ruleTTruth},
 		rule{name: "T-arith", run: ruleTArith},
-		rule{name: "T-hash", run: ruleTHash}, rule{name: "T-shift", run: ruleTShift},
+		rule{name: "T-hash", run: ruleTHash}, rule{name: "T-shift", run: ruleTShift}, rule{name: "T-nop", run: ruleTNop},
 	)
 	register("C18",
 		"Lock discipline of the documented thread-safe types decided for every schedule by a lockset analysis (L-fee: every read/write of FeeQuotes.quotes, FeeQuote.fees, FeeQuote.expiryTime happens with the struct's RWMutex held in a sufficient mode; L-pair: acquire/release kinds pair on every path; L-order: acquisition order acyclic; L-escape: no guarded map handed out by reference). Verdict equality of concurrent vs sequential Execute is decided only through its structural cause: O-glob shows no function reachable from Engine.Execute writes package-level state.",
@@ -51,13 +51,18 @@ func init() {
 	register("C01", "W-tx T-vi ACC", nil, rule{name: "W-tx", run: ruleWTx}, rule{name: "W-rd", run: ruleWRd}, rule{name: "T-vi", run: ruleTVi}, rule{name: "ACC", run: ruleACC})
 	register("C17", "T-fmt S-disp", nil, rule{name: "T-fmt", run: ruleTFmt}, rule{name: "S-disp", run: ruleSDisp})
 	register("C15", "S-chk T-ver", nil, rule{name: "S-chk", run: ruleSChk}, rule{name: "T-ver", run: ruleTVer}, rule{name: "T-tmpl", run: func(c *Ctx) { ruleTTmplOnly(c, map[string]bool{"IsP2PKH": true}) }}, rule{name: "S-carry", run: ruleSCarry}, rule{name: "W-addr", run: ruleWAddr})
-	register("C19", "O-fresh S-arg S-nobr S-order S-fan", nil, rule{name: "O-fresh", run: ruleOFreshState}, rule{name: "S-arg", run: ruleSDebugArg}, rule{name: "S-nobr", run: ruleSNoBranch}, rule{name: "S-order", run: ruleSOrder}, rule{name: "S-fan", run: ruleSFan})
+	register("C19", "O-fresh S-arg S-nobr S-order S-fan", nil, rule{name: "O-fresh", run: ruleOFreshState}, rule{name: "S-arg", run: ruleSDebugArg}, rule{name: "S-nobr", run: ruleSNoBranch}, rule{name: "S-order", run: ruleSOrder}, rule{name: "S-fan", run: ruleSFan},
+		// "attaching a debugger never changes the verdict": taking the snapshot itself cannot fail
+		rule{name: "P-snap", run: func(c *Ctx) {
+			configureInterpP(c)
+			runP(c, "P-snap", []entrySpec{{"bscript/interpreter", "*thread", "State"}}, 1, 10)
+		}})
 	register("C12", "S-fund G-map O-pure", nil, rule{name: "S-fund", run: ruleSFund}, rule{name: "G-map", run: ruleGMapFromUTXOs}, rule{name: "G-lin", run: ruleGDeficit}, rule{name: "G-sum", run: ruleGSum})
 	register("C11", "G-size G-fee G-pred P-est T-tmpl G-sum", nil, rule{name: "G-size", run: ruleGSize}, rule{name: "G-fee", run: ruleGFee}, rule{name: "G-fee", run: ruleGQuote}, rule{name: "G-pred", run: ruleGPred}, rule{name: "P-est", run: rulePEst}, rule{name: "G-clone", run: ruleGClone}, rule{name: "G-sum", run: ruleGSum}, rule{name: "T-tmpl", run: func(c *Ctx) {
 		ruleTTmplOnly(c, map[string]bool{"IsData": true, "IsP2PKH": true, "IsP2PKHInscription": true})
 	}})
 	register("C10", "G-chg S-chg O-pure G-sum G-size T-vi", nil, rule{name: "G-chg", run: ruleGChg}, rule{name: "S-chg", run: ruleSChgWrappers}, rule{name: "G-sum", run: ruleGSum}, rule{name: "G-size", run: ruleGSize}, rule{name: "P-est", run: rulePEst}, rule{name: "T-vi", run: func(c *Ctx) { ruleTViOnly(c, map[string]bool{"Length": true, "UpperLimitInc": true}) }})
-	register("C06", "T-enc G-legacy S-sub S-enc S-false S-nullf", nil, rule{name: "T-enc", run: ruleTEnc}, rule{name: "G-legacy", run: ruleGLegacy}, rule{name: "S-sub", run: ruleSSub}, rule{name: "S-enc", run: ruleSEncOrder}, rule{name: "S-multi", run: ruleSMulti}, rule{name: "S-reset", run: ruleSReset}, rule{name: "G-clone", run: ruleGClone}, rule{name: "S-canon", run: ruleSCanon})
+	register("C06", "T-enc G-legacy S-sub S-enc S-false S-nullf", nil, rule{name: "T-enc", run: ruleTEnc}, rule{name: "G-legacy", run: ruleGLegacy}, rule{name: "S-sub", run: ruleSSub}, rule{name: "S-enc", run: ruleSEncOrder}, rule{name: "S-multi", run: ruleSMulti}, rule{name: "S-reset", run: ruleSReset}, rule{name: "G-clone", run: ruleGClone}, rule{name: "S-canon", run: ruleSCanon}, rule{name: "T-der", run: ruleTDer})
 	register("C04", "S-flag W-unlock S-fill S-digest S-apply T-shf", nil, rule{name: "S-flag", run: ruleSFlag}, rule{name: "S-digest", run: ruleSDigest}, rule{name: "S-apply", run: ruleSApply}, rule{name: "T-shf", run: ruleTShf}, rule{name: "S-sub", run: ruleSSub}, rule{name: "T-enc", run: ruleTEnc}, rule{name: "G-clone", run: ruleGClone},
 		// "commit to exactly what their hash type says under the digest algorithm in force": the two digest
 		// algorithms themselves (decided as for C02 / C03)
